@@ -19,7 +19,7 @@ RULE = ("each case: format in {SDMF, MDMF}, k<=3, N<=5, the mutable segment size
 LEVEL_TEXT = "Random histories against a byte-string reference model, compared after every step, with boundary-directed generation."
 ASSUMPTIONS = ["one writer; servers are honest, except that a 'flaky-writes' step makes chosen servers fail or not acknowledge their next write calls during the following operation (that operation may then fail; if it reports success the model applies)", "each update uses a freshly obtained best version (as the web API and SFTP front ends do)",
                "update with offset > size is not generated (the code asserts offset <= size)", "ranged reads lie inside the file (Retrieve.download asserts it; the web front end clips ranges before calling)"]
-REQUIRED_CLASSES = ["verified-by-second-client", "update-ok-under-flaky-writes", "mdmf", "sdmf", "update-cross-boundary", "update-ends-on-boundary", "update-grows-segments", "update-append", "modify", "reopen", "multi-segment", "overwrite-shrink"]
+REQUIRED_CLASSES = ["threads-async", "verified-by-second-client", "update-ok-under-flaky-writes", "mdmf", "sdmf", "update-cross-boundary", "update-ends-on-boundary", "update-grows-segments", "update-append", "modify", "reopen", "multi-segment", "overwrite-shrink"]
 BUDGET = {"quick": 900, "thorough": 7200}
 # classes of operations that fail today without damaging the file (outside the statement: it speaks about successful operations); counted in the evidence
 TOLERATED_FAILURES = "update at EOF of an MDMF file whose size is a multiple of the segment size; update of an empty file"
@@ -51,7 +51,7 @@ def cases(draw):
         st.tuples(st.just("reopen")),
     ).map(list), min_size=1, max_size=8))
     return {"observer": draw(st.booleans()), "fmt": draw(st.sampled_from(["sdmf", "mdmf", "mdmf"])), "k": k, "n": n, "seg": seg, "size0": draw(length), "ops": ops,
-            "sched": draw(st.lists(st.integers(0, 9), max_size=draw(st.sampled_from([0, 40, 300]))))}
+            "sched": draw(st.lists(st.integers(0, 9), max_size=draw(st.sampled_from([0, 40, 300])))), "threads": draw(st.sampled_from(["sync", "async", "async"]))}
 
 
 def run_shard(spec, ctx):
@@ -74,9 +74,12 @@ def run_case(case, ctx):
     k, n, seg, fmt = case["k"], case["n"], case["seg"], case["fmt"]
     mutfile.set_segsize(seg)
     g = Grid(ctx.casedir(), n + 1, {"k": k, "n": n, "happy": 1, "max_segment_size": 131072}, choices=case["sched"])
-    classes = {fmt}
+    classes = {fmt, "threads-" + case.get("threads", "sync")}
     nt = False
     failed_core = []
+    # CPU-bound steps (hashing, en/decryption, zfec) handed to defer_to_thread: synchronous (the repository's test switch) or, as in
+    # production, answered in a later reactor turn so that other work interleaves
+    boot.set_thread_mode(case.get("threads") == "async")
     try:
         model = bytearray(pbytes(77, rlen(case["size0"], 0, 0, seg)))
         r = mutfile.create(g, g.c0, fmt, model)
@@ -271,4 +274,5 @@ def run_case(case, ctx):
     finally:
         g.stop()
         mutfile.restore_segsize()
+        boot.set_thread_mode(False)
     ctx.note(sig=repr(sorted(case.items())), nontrivial=nt, classes=sorted(classes), sample={"fmt": fmt, "k": k, "n": n, "seg": seg, "history": hist})
